@@ -87,6 +87,9 @@ func VH_C06_ProtectedTarget() {
 	ban := &vStubBan{}
 	srv.BanList = ban
 	target := vNewClient(srv, "victim")
+	// a third, protected user connected from the same address as the target (NAT, same host): never collateral damage
+	bystander := vNewClient(srv, "bystander")
+	bystander.Account.Access[2] |= 0x01 // cannot be disconnected (bit 23)
 	var fields []hotline.Field
 	fields = append(fields, hotline.NewField(hotline.FieldUserID, target.ID[:]))
 	if vBool("has_options") {
@@ -115,6 +118,7 @@ func VH_C06_ProtectedTarget() {
 		vAssert("target_removed", srv.ClientMgr.Get(target.ID) == nil)
 		vAssert("target_conn_closed", target.Connection.(*vConn).closed == 1)
 	}
+	vAssert("protected_bystander_at_the_same_address_stays", srv.ClientMgr.Get(bystander.ID) == bystander && bystander.Connection.(*vConn).closed == 0)
 }
 
 // History: a user edits the account it is logged in with (gives privileges up), then asks for a new account. The
